@@ -44,6 +44,7 @@ def shards(tier, seed):
         out.append(("enc_%s" % c.name, dict(kind="enc", cname=c.name, rounds=1 if q else 6)))
     if not q:
         out.append(("repo_test_suite_under_contract", dict(kind="suite")))
+    out.append(("near_recursion_limit", dict(kind="near_limit")))
     return out
 
 
@@ -132,6 +133,8 @@ def run(ctx, name, kind, **kw):
     if kind == "suite":
         from vf.props import c01
         return c01.run_suite(ctx, which="verify")
+    if kind == "near_limit":
+        return sigs.near_limit(ctx, rng, ["NIST521p", "BRAINPOOLP512r1", "NIST256p", "SECP112r2"], ['verify'])
     if kind == "toy":
         from vf import toy
         t = toy.toy(*kw["key"])
